@@ -298,6 +298,14 @@ ROUND7 = {
 }
 
 
+# round 8 (DESIGN.md 9.12)
+ROUND8 = {
+    "C01": " Round 8: pages driven through the listener are read back through Page.notes on the page object it built (no note lost, file order).",
+    "C03": " Round 8: several property filters of one AND group, in all iteration orders of the set, each keep their own membership operator and key.",
+    "C08": " Round 8: (R5) the built-page read-back of C01 is adopted for 'all of its notes are indexed'; (R7) the error collector that decides has_errors listens to Parser-derived recognisers only.",
+}
+
+
 def main() -> None:
     props = [json.loads(l) for l in (VERIF / "properties.jsonl").read_text().splitlines() if l.strip()]
     checks = []
@@ -306,7 +314,7 @@ def main() -> None:
         pid = p["id"]
         if pid in CHECKS:
             tech, text, note, ref = CHECKS[pid]
-            text = text + ADDENDA.get(pid, "") + ROUND34.get(pid, "") + ROUND5.get(pid, "") + ROUND6.get(pid, "") + ROUND7.get(pid, "") + (METHOD if pid in ("C01", "C02", "C03", "C05", "C06", "C07", "C08", "C09", "C10", "C11", "C12", "C13", "C14", "C15", "C16", "C17", "C18") else "")
+            text = text + ADDENDA.get(pid, "") + ROUND34.get(pid, "") + ROUND5.get(pid, "") + ROUND6.get(pid, "") + ROUND7.get(pid, "") + ROUND8.get(pid, "") + (METHOD if pid in ("C01", "C02", "C03", "C05", "C06", "C07", "C08", "C09", "C10", "C11", "C12", "C13", "C14", "C15", "C16", "C17", "C18") else "")
             checks.append(
                 {
                     "property_id": pid,
